@@ -15,7 +15,7 @@ Definition wf_inv (v : inv) : bool :=
 
 (* the target-side image of a source tree: import of the initial commit that adds everything *)
 Definition image (plain : bool) (old : inv) : res (inv * N) :=
-  let '(c, m) := filecmds plain [] old [] in import_commit [] 1000 (c ++ m).
+  let '(c, m) := filecmds plain [] old [] [] in import_commit [] 1000 (c ++ m).
 
 (* ------------------------------------------------------------------ *)
 (* generic list facts                                                  *)
@@ -221,14 +221,14 @@ Proof.
   - apply IH.
 Qed.
 
-Theorem filecmds_emit_changed_content (plain : bool) (old new : inv) (mpaths : list path) (e : entry) :
+Theorem filecmds_emit_changed_content (plain : bool) (old new : inv) (mpaths dpaths : list path) (e : entry) :
   nodup_N (map e_id new) = true ->
   In e new ->
   kind_eqb (e_kind e) KDir = false ->
   needs_M old e = true ->
   (forall o, find_entry old (e_id e) = Some o -> renamed_b o e = true ->
              is_empty_dir old (opath old (e_id o)) = false) ->
-  In (CM (opath new (e_id e)) (mode_of e) (e_data e)) (snd (filecmds plain old new mpaths)).
+  In (CM (opath new (e_id e)) (mode_of e) (e_data e)) (snd (filecmds plain old new mpaths dpaths)).
 Proof.
   intros. unfold filecmds.
   pose proof (exporter_emits_changed_content plain old new e H H0 H1 H2 H3) as HM.
@@ -250,7 +250,7 @@ Definition L (i par : N) (nm data : bytes) : entry := mkE i par nm KLink data fa
 (* the round trip of one step on the imported image of the old tree *)
 Definition step_tree (plain : bool) (old new : inv) : res (list titem) :=
   match image plain old with
-  | Ok (b, _) => roundtrip_tree plain b old new []
+  | Ok (b, fr) => roundtrip_tree plain b fr old new []
   | Fail e => Fail e
   end.
 
@@ -270,21 +270,43 @@ Definition refutes (plain : bool) (w : inv * inv) : Prop :=
   (exists b fr, image plain (fst w) = Ok (b, fr) /\ tree_of b = tree_of (fst w)) /\
   step_tree plain (fst w) (snd w) <> Ok (tree_of (snd w)).
 
+(* ... and a witness on which the step is exact *)
+Definition exact_on (plain : bool) (w : inv * inv) : Prop :=
+  wf_inv (fst w) = true /\ wf_inv (snd w) = true /\
+  (exists b fr, image plain (fst w) = Ok (b, fr) /\ tree_of b = tree_of (fst w)) /\
+  step_tree plain (fst w) (snd w) = Ok (tree_of (snd w)).
+
+Ltac image_ok :=
+  match goal with |- exists b fr, ?i = _ /\ _ =>
+    let r := fresh "r" in let E := fresh "E" in
+    remember i as r eqn:E; vm_compute in E; rewrite E;
+    eexists; eexists; split; [reflexivity|vm_compute; reflexivity]
+  end.
+
 Ltac refute :=
   unfold refutes; split; [vm_compute; reflexivity|];
   split; [vm_compute; reflexivity|];
-  split;
-  [ match goal with |- exists b fr, ?i = _ /\ _ =>
-      let r := fresh "r" in let E := fresh "E" in
-      remember i as r eqn:E; vm_compute in E; rewrite E;
-      eexists; eexists; split; [reflexivity|vm_compute; reflexivity]
-    end
-  | let H := fresh "H" in vm_compute; intro H; discriminate H ].
+  split; [image_ok | let H := fresh "H" in vm_compute; intro H; discriminate H ].
 
+Ltac exact_step :=
+  unfold exact_on; split; [vm_compute; reflexivity|];
+  split; [vm_compute; reflexivity|];
+  split; [image_ok | vm_compute; reflexivity ].
+
+(* still wrong: rename order (swap, rename onto a vacated path, chain) and a directory replaced by a file
+   while its child is renamed out *)
 Lemma swap_refutes : refutes true wit_swap.            Proof. refute. Qed.
 Lemma clobber_refutes : refutes true wit_clobber.      Proof. refute. Qed.
 Lemma chain_refutes : refutes true wit_chain.          Proof. refute. Qed.
-Lemma dirrename_refutes : refutes true wit_dirrename.  Proof. refute. Qed.
-Lemma link_to_dir2_refutes : refutes true wit_link_to_dir2.  Proof. refute. Qed.
 Lemma dir_to_file_refutes : refutes true wit_dir_to_file.    Proof. refute. Qed.
-Lemma link_to_emptydir_refutes : refutes true wit_link_to_emptydir.  Proof. refute. Qed.
+
+(* repaired (ff45d1e, 62f284f): directory rename with a modified child; symlink replaced by a directory
+   with two files *)
+Lemma dirrename_exact : exact_on true wit_dirrename.         Proof. exact_step. Qed.
+Lemma link_to_dir2_exact : exact_on true wit_link_to_dir2.   Proof. exact_step. Qed.
+
+(* a symlink that becomes an empty directory: the link is deleted now; the empty directory itself cannot
+   be carried by a plain stream *)
+Lemma link_to_emptydir_leaf :
+  step_tree true (fst wit_link_to_emptydir) (snd wit_link_to_emptydir) = Ok (tree_of [F 2 0 bB tA]).
+Proof. vm_compute. reflexivity. Qed.
